@@ -3,10 +3,12 @@
 import glob, json, os, subprocess
 V = os.path.dirname(os.path.dirname(os.path.abspath(__file__)))
 props = [json.loads(l) for l in open(os.path.join(V, "properties.jsonl"))]
+# only slices that the integrator has run green are claimed
+CLAIMED = json.load(open(os.path.join(V, "tools", "claimed.json")))
 cfgs = {}
 for f in sorted(glob.glob(os.path.join(V, "tools", "props", "C*.json"))):
     c = json.load(open(f))
-    if c.get("claimed", True):
+    if c["id"] in CLAIMED:
         cfgs[c["id"]] = c
 commits = subprocess.run(["git", "-C", "/repo", "log", "--format=%h", "--grep=^verif:"], capture_output=True, text=True).stdout.split()
 na_reasons = json.load(open(os.path.join(V, "tools", "not_applicable.json"))) if os.path.exists(os.path.join(V, "tools", "not_applicable.json")) else {}
